@@ -33,13 +33,16 @@ def removeAll (s excl : List Char) : List Char := s.filter (fun c => !excl.conta
 /-- `[ _collapse_string_to_ranges(set) ]` -/
 def clsOf (set : List Char) : Re := .cls (collapseItems set)
 
+/-- `re_leading_fragment` (core.py:2910-2913) -/
+def leadRe (initSet : List Char) : Re :=
+  match initSet with
+  | [c] => .chr c                       -- re.escape(self.initCharsOrig)
+  | _ => clsOf initSet
+
 /-- core.py:2909-2944, the text of `self.reString` before the `\b` wrapping.
     `min`/`max` are the *local* variables (overwritten by `exact`), `minLen`/`maxLen` the attributes. -/
 def wordReCore (initSet bodySet : List Char) (min max minLen : Nat) (maxLen : Option Nat) : Re :=
-  let lead : Re :=
-    match initSet with
-    | [c] => .chr c                       -- re.escape(self.initCharsOrig)
-    | _ => clsOf initSet
+  let lead : Re := leadRe initSet
   if bodySet == initSet then
     if max == 0 && minLen == 1 then .plus lead
     else if max == 1 then lead
